@@ -368,6 +368,20 @@ func (endp *Endpoint) NewSession(conn *smtp.Conn) (smtp.Session, error) {
 	// the open delivery, return the limits and update the session counter.
 	if conn != nil {
 		if prev, ok := conn.Session().(*Session); ok && prev != nil {
+			// A chunked transfer (BDAT without LAST) runs Data in its own
+			// goroutine that keeps msgLock until the last chunk arrives.
+			// go-smtp does not cancel it on EHLO, so waiting for the lock
+			// in Logout would block the connection forever. Commands
+			// other than BDAT and RSET are not allowed at this point
+			// (RFC 3030 Section 4.2).
+			if !prev.msgLock.TryLock() {
+				return nil, &smtp.SMTPError{
+					Code:         503,
+					EnhancedCode: smtp.EnhancedCode{5, 5, 1},
+					Message:      "EHLO not allowed during message transfer",
+				}
+			}
+			prev.msgLock.Unlock()
 			if err := prev.Logout(); err != nil {
 				endp.Log.Error("previous session logout failed", err)
 			}
